@@ -155,6 +155,7 @@ func execBurst(f []string) vlib.Res {
 			or = fmt.Sprintf("FAIL sig=burst/flush/staged-replies-held-across-slow-path still=%d burst=%s", still, f[2])
 		}
 		total := 0
+		perID := map[uint16]int{}
 		for _, d := range []string{"a", "b", "c"} {
 			c := socks[d]
 			if c == nil {
@@ -174,6 +175,7 @@ func execBurst(f []string) vlib.Res {
 					continue
 				}
 				got[m.Id]++
+				perID[m.Id]++
 				total++
 			}
 			for id := range want[d] {
@@ -194,7 +196,16 @@ func execBurst(f []string) vlib.Res {
 		if (strings.Contains(f[2], "x") && len(dests) > 1) || f[1] == "flush" {
 			tags = "nt"
 		}
-		return vlib.Res{Impl: fmt.Sprintf("datagrams=%d", total), Oracle: or, Tags: tags}
+		var counts []string
+		for _, id := range ids {
+			counts = append(counts, fmt.Sprint(perID[id]))
+		}
+		impl := "counts=" + strings.Join(counts, ",")
+		if f[1] == "flush" {
+			impl = fmt.Sprintf("still=%d %s", still, impl)
+		}
+		_ = total
+		return vlib.Res{Impl: impl, Oracle: or, Tags: tags}
 	}
 	return vlib.Res{Impl: "bad-op"}
 }
@@ -387,4 +398,66 @@ func execProc(f []string) vlib.Res {
 		or = fmt.Sprintf("FAIL sig=proc/%s/live-query-not-answered out=%s", f[1], out)
 	}
 	return vlib.Res{Impl: fmt.Sprintf("writes=%d out=%s", writes, out), Oracle: or, Tags: "nt"}
+}
+
+// ---------------------------------------------------------------- inl / bw
+
+func tcpWriteWaitMs() int {
+	_, ww, _ := server.VerifC11BeforeWrite(0)
+	return int(ww / time.Millisecond)
+}
+
+// execInl: inl <wrote> <handoff> <panics> <replayWrote> — the REAL udpEngine.serveInline
+// (+ the worker's serve after a hand-back) against a scripted inline handler.
+func execInl(f []string) vlib.Res {
+	if len(f) == 2 && f[1] == "new" {
+		return vlib.Res{Impl: "ok"}
+	}
+	if len(f) != 5 {
+		return vlib.Res{Impl: "bad-op"}
+	}
+	wrote, handoff, panics, rw := f[1] == "t", f[2] == "t", f[3] == "t", f[4] == "t"
+	staged, replays, releases, ok := server.VerifC11ServeInline(wrote, handoff, panics, rw)
+	if !ok {
+		return vlib.Res{Impl: "unavailable", Tags: "no-inline"}
+	}
+	or := "ok"
+	switch {
+	case staged > 1:
+		or = fmt.Sprintf("FAIL sig=inl/second-datagram-for-one-query staged=%d", staged)
+	case wrote && replays > 0:
+		or = "FAIL sig=inl/staged-reply-replayed"
+	case replays > 1:
+		or = fmt.Sprintf("FAIL sig=inl/replayed-more-than-once n=%d", replays)
+	case releases != 1:
+		or = fmt.Sprintf("FAIL sig=inl/job-released-%d-times", releases)
+	case wrote && staged != 1:
+		or = "FAIL sig=inl/staged-reply-lost"
+	}
+	return vlib.Res{Impl: fmt.Sprintf("datagrams=%d replays=%d releases=%d", staged, replays, releases), Oracle: or, Tags: "nt"}
+}
+
+// execBW: bw <prev_ms> — tcpStream.beforeWrite on a stream whose current deadline lies prev_ms from now (0: none).
+func execBW(f []string) vlib.Res {
+	if len(f) != 2 {
+		return vlib.Res{Impl: "bad-op"}
+	}
+	if f[1] == "new" {
+		return vlib.Res{Impl: "ok"}
+	}
+	armed, ww, err := server.VerifC11BeforeWrite(time.Duration(vlib.AtoI64(f[1])) * time.Millisecond)
+	if err != nil {
+		return vlib.Res{Impl: "err"}
+	}
+	impl := fmt.Sprintf("armed=%d", armed.Milliseconds())
+	if d := armed - ww; d > -100*time.Millisecond && d < 100*time.Millisecond {
+		impl = "armed=writewait"
+	}
+	or := "ok"
+	if armed <= 0 {
+		or = fmt.Sprintf("FAIL sig=bw/write-deadline-in-the-past armed=%s prev=%sms", armed, f[1])
+	} else if impl != "armed=writewait" {
+		or = fmt.Sprintf("FAIL sig=bw/write-deadline-not-fresh armed=%s want=%s", armed, ww)
+	}
+	return vlib.Res{Impl: impl, Oracle: or, Tags: "nt"}
 }
